@@ -66,6 +66,8 @@ def units(tier, seed):
     for a, b in (("S1", "S2"), ("S5", "S1"), ("S2", "S9"), ("S12", "S5")):
         for rep in ("tree",):  # CooperativeGP re-injects phenotypes, which only the tree representation accepts
             us.append({"kind": "coop", "spec": shapes[a], "spec2": shapes[b], "rep": rep, "max_dev": 1, "max_execs": 40 if tier == "quick" else 400})
+        # everything the constructor documents as optional left out (default representations, default random source)
+        us.append({"kind": "coop", "spec": shapes[a], "spec2": shapes[b], "rep": "defaults", "max_dev": 0, "max_execs": 1})
     us += [u for u in P.standard_units(tier, [], with_pt=False) if u.get("reannotate")]
     return us
 
@@ -204,6 +206,11 @@ def run_coop(unit) -> UnitResult:
                 return float((len(repr(x)) * 3 + len(repr(y))) % 5)
 
             d1, d2 = g1.get_min_tree_depth() + 1, g2.get_min_tree_depth() + 1
+            if rep_kind == "defaults":
+                coop = CooperativeGP(g1, g2, score, population1_size=2, population2_size=3, coevolutions=2,
+                                     kwargs1={"budget": EvaluationBudget(3)}, kwargs2={"budget": EvaluationBudget(4)})
+                run.got = got
+                return coop.search()
             coop = CooperativeGP(g1, g2, score, representation1=make_rep(rep_kind, g1, src, d1, gene_length=5),
                                  representation2=make_rep(rep_kind, g2, src, d2, gene_length=5),
                                  population1_size=2, population2_size=3, coevolutions=2, random=src,
